@@ -273,6 +273,74 @@ func vScenarioC02(rc *runCtx) {
 	if dirs == 1 || dirs == 2 {
 		attach(x.down[hop])
 	}
+	// tail truncation of a whole stream: from the moment the other direction carries a digest line (or its k-th
+	// write) everything one direction still has to say is lost - alone or on top of the byte faults above
+	if _, enum := rc.enumInt("enum_k"); !enum && tp.Bool("bf.cutstream", 150) {
+		victim, other := x.down[hop], x.up[hop]
+		if tp.Bool("bf.cutdir", 500) {
+			victim, other = other, victim
+		}
+		atDigest := tp.Bool("bf.cutatdigest", 600)
+		kth := 3 + tp.Draw("bf.cutk", 30)
+		n, cut := 0, false
+		cfgSeen := vArmAfterCfg(x)
+		if atDigest && tp.Bool("bf.cutflip", 600) {
+			// ... and the data that digest is about was damaged on its way, in a way only the digest can tell
+			flipped := false
+			prevM := other.Mangle
+			other.Mangle = func(l *verifsim.Link, d []byte) []byte {
+				if prevM != nil {
+					d = prevM(l, d)
+				}
+				if flipped || !cfgSeen() || !bytes.HasPrefix(d, []byte("#DATA:")) || len(d) < 16 {
+					return d
+				}
+				nl := bytes.IndexByte(d, '\n')
+				if nl < 0 {
+					nl = len(d)
+				}
+				lo := 6
+				if nl < len(d)-1 {
+					lo = nl + 1 // a sized binary block behind the header
+					nl = len(d)
+				}
+				if nl-lo < 4 {
+					return d
+				}
+				i := lo + 1 + tp.Draw("bf.cutflipat", nl-lo-2)
+				out := append([]byte(nil), d...)
+				switch c := out[i]; {
+				case c >= 'A' && c < 'Z', c >= 'a' && c < 'z', c >= '0' && c < '9':
+					out[i] = c + 1
+				case c == 0xee || (i > 0 && out[i-1] == 0xee):
+					return d
+				default:
+					out[i] = c ^ 0x01
+				}
+				flipped = true
+				bf.fired++
+				bf.log = append(bf.log, fmt.Sprintf("%s: one byte of a data chunk changed (offset %d of %d)", l.Name, i, len(d)))
+				return out
+			}
+		}
+		prevOn := other.OnWrite
+		other.OnWrite = func(l *verifsim.Link, d []byte) {
+			if prevOn != nil {
+				prevOn(l, d)
+			}
+			if cut || !cfgSeen() {
+				return
+			}
+			n++
+			if (atDigest && bytes.HasPrefix(d, []byte("#MD5:"))) || (!atDigest && n >= kth) {
+				cut = true
+				victim.Discard = true
+				bf.fired++
+				bf.log = append(bf.log, fmt.Sprintf("%s: everything from now on is lost (the other direction is at write %d, %s)", victim.Name, n, vClip(string(d), 12)))
+				rc.fault("stream-tail-lost")
+			}
+		}
+	}
 	rc.res.ClassKey = fmt.Sprintf("%s hop%d dir%d", cfg.key(), hop, dirs)
 	x.start()
 	rc.w.Run(x.finished)
